@@ -279,6 +279,8 @@ fn run(hist: usize, cfg: Cfg, steps: &[Step], crash_at: Option<u64>, skip: Optio
     let mut crashed: Option<(usize, String)> = None;
     let mut rec_line = Line::new();
     let mut costs: Vec<String> = Vec::new();
+    let mut partial = false;
+    let mut partial_at_crash = false;
     for (i, s) in steps.iter().enumerate() {
         let mut l = Line::new();
         let before = teos_common::verif::count();
@@ -289,10 +291,16 @@ fn run(hist: usize, cfg: Cfg, steps: &[Step], crash_at: Option<u64>, skip: Optio
             }
             continue;
         }
-        if let Step::Add(_, _, key, pay, len) = s {
+        if let Step::Add(signer, loc, key, pay, len) = s {
             let b = sys.w.make_blob(*key, *pay, *len, 1);
             let blen = sys.w.blobs[b].1.len;
-            costs.push(format!("{i}:{}", (blen + 2047) / 2048));
+            costs.push(format!("{i}:{}:{loc}:{signer}", (blen + 2047) / 2048));
+        }
+        if let Step::Api(Op::Register(u)) = s {
+            costs.push(format!("{i}:0:-1:{u}"));
+        }
+        if matches!(s, Step::FailBlock(_)) {
+            partial = true;
         }
         let r = sys.step(s, &mut l);
         if crash_at.is_none() && skip.is_none() {
@@ -303,6 +311,7 @@ fn run(hist: usize, cfg: Cfg, steps: &[Step], crash_at: Option<u64>, skip: Optio
             let label = labels.last().copied().unwrap_or("?");
             let _ = before;
             crashed = Some((i, label.to_string()));
+            partial_at_crash = partial;
             sys.recover(&mut rec_line);
             rec_line.tok(format!("lkb={}", sys.lkb_height())).tok(format!("tip={}", sys.chain.height()));
             rec_line.tok("REC").tok(sys.tables());
@@ -343,8 +352,9 @@ fn run(hist: usize, cfg: Cfg, steps: &[Step], crash_at: Option<u64>, skip: Optio
             let (step, label) = crashed.clone().unwrap_or((usize::MAX, "not-reached".into()));
             writeln!(
                 out,
-                "CR {hist} {c} {label} {} | {} FINAL {final_tables} SENDS {} {sends_s}",
+                "CR {hist} {c} {label} {} | partial={} {} FINAL {final_tables} SENDS {} {sends_s}",
                 if step == usize::MAX { -1 } else { step as i64 },
+                partial_at_crash as u8,
                 rec_line.0,
                 sends.len()
             )
